@@ -4,6 +4,7 @@ import atexit
 import copy
 import json
 import os
+import re
 import subprocess
 import sys
 
@@ -97,7 +98,8 @@ class C14(object):
             'shipped seen-rule pairs (en, en_rebank, ja), pairs over the shipped tag inventories, closure under rule '
             'application (depth 2), synthetic categories with several occurrences of one feature variable bound to '
             'different values, [nb] twins, shipped/random/empty seen sets and unary tables.  Oracles: no exception; '
-            'arguments unchanged; identical result list at every evaluation in every replica; seen filter = all or '
+            'arguments unchanged; identical result list at every evaluation in every replica and equal to the item evaluated '
+            'alone in a fresh process image (sampled); seen filter = all or '
             'nothing; en results independent of [nb]; unary results = configured targets in order.  Distinct = digest '
             'of the item; non-trivial = non-empty result evaluated under >= 2 hash seeds whose two-string set order '
             'differs.')
@@ -165,6 +167,26 @@ class C14(object):
                     if tx:
                         it = add_binary(tx, base['y'], base.get('seen'), tag='nb_twin')
                         it['twin_of'] = items.index(base)
+            elif r < 0.94:
+                # near-twins of an earlier item: same pair with variable features / all features erased, or swapped.
+                # (a memo keyed by a coarser view of the arguments makes twins interfere)
+                cands = [it for it in items if it['kind'] == 'binary']
+                if cands:
+                    base = rng.choice(cands)
+                    how = rng.choice(['erase_X', 'erase_X', 'erase_all', 'swap'])
+                    try:
+                        cx, cy = Category.parse(base['x']), Category.parse(base['y'])
+                        if how == 'erase_X':
+                            tx, ty = str(cx.clear_features('X')), str(cy.clear_features('X'))
+                        elif how == 'erase_all':
+                            feats = set(re.findall(r'\[([^\]]*)\]', base['x'] + base['y']))
+                            tx, ty = str(cx.clear_features(*feats)), str(cy.clear_features(*feats))
+                        else:
+                            tx, ty = base['y'], base['x']
+                        if (tx, ty) != (base['x'], base['y']):
+                            add_binary(tx, ty, base.get('seen'), tag='near_twin_' + how)
+                    except Exception:
+                        pass
             else:
                 utab = grammars.shipped('unary_rules', variant)
                 if rng.random() < 0.6:
@@ -182,8 +204,10 @@ class C14(object):
             r2 = gen.stream(seed, f'C14:order:{rep}', index)
             r2.shuffle(order)
             orders.append(order)
+        r3 = gen.stream(seed, 'C14:alone', index)
+        alone = sorted(r3.sample(range(len(items)), max(1, len(items) // 4)))
         return {'prop': 'C14', 'seed': seed, 'index': index, 'variant': variant, 'hashseeds': seeds,
-                'items': items, 'orders': orders}
+                'items': items, 'orders': orders, 'alone': alone}
 
     # ------------------------------------------------------------ execution
     def execute(self, spec, executor_mode=None):
@@ -209,6 +233,17 @@ class C14(object):
                 per.setdefault(idx, []).append(a)
             answers.append(per)
             set_orders.append(tuple(srv.hello['pair_order']))
+        # reference answers: the item evaluated alone in a fresh process image (replica 0)
+        alone_answers = {}
+        for i in spec.get('alone', []):
+            srvs[0].stdin.write(json.dumps({'items': [items[i]], 'order': [0]}) + '\n')
+        srvs[0].stdin.flush()
+        for i in spec.get('alone', []):
+            reply = json.loads(srvs[0].stdout.readline())
+            if 'died' in reply:
+                raise env.HarnessError('replica evaluation child died')
+            alone_answers[i] = reply['answers'][0]
+        bump(stats, 'alone_reference_evaluations', len(alone_answers))
         diverse = len(set(set_orders)) >= 2
         bump(stats, 'replica_evaluations', sum(len(o) for o in spec['orders']))
         add_set(stats, 'hashseeds_used', tuple(spec['hashseeds']))
@@ -254,6 +289,11 @@ class C14(object):
                         kind='hashseed')
                     break
             if violations:
+                break
+            if i in alone_answers and alone_answers[i].get('res') != ref['res']:
+                vio('same_as_alone',
+                    f'{desc}: evaluated alone in a fresh process gives {_cats(alone_answers[i].get("res") or [])}, inside the '
+                    f'recorded list (after other rule applications) {_cats(ref["res"])}', i, kind='history')
                 break
             if ref['res'] and diverse:
                 add_set(stats, 'nontrivial', digest(it))
@@ -357,6 +397,7 @@ class C14(object):
                     it.pop('twin_of')
                     it['tag'] = 'pair'
         cand['orders'] = [[remap[i] for i in order if i in remap] for order in spec['orders']]
+        cand['alone'] = sorted(remap[i] for i in spec.get('alone', []) if i in remap)
         return cand
 
     def evidence_extra(self, stats):
